@@ -118,6 +118,21 @@ PROPS = {
             rapid("random-domain", "TestC06RandomDomain", 20000, 200000),
         ],
     ),
+    "C07": dict(
+        technique="differential PBT over (run, save point, receiver state, continuation): snapshot immutability, resume vs a replayed fresh runner, independence of restored runners, re-snapshot equality, failed restore vs untouched twin",
+        level_text="Generated deterministic scripts (every node logs its entry through a host probe and starts with a line; jumps, cycles, options, sets, rendered "
+                   "visit counts, a harness-held <<hold>> command) are run with choices c; a snapshot S is taken after k Next calls. Checked: (a) S, deep-copied at "
+                   "that moment, is unchanged after the original went on and after restored runners were driven; (b) a receiver in a generated state (fresh, mid-run, "
+                   "waiting for a choice, waiting for a never-completing command, ended) restored from S and driven with c' yields the same elements as a fresh runner "
+                   "replayed to that node entry and then driven with c'; (c) a second runner restored from S is unaffected by driving the first; (d) Snapshot() "
+                   "right after RestoreAt equals S; (e) restoring a snapshot that names an unknown node fails and the runner goes on like an untouched twin. Search, not proof.",
+        level_note="Model-free apart from a pre-check that the script is fault-free; relies on the entry probe being the first statement of every node to locate 'the most "
+                   "recent node entry'. nil and empty maps are identified. Scripts using random built-ins are not generated (the property excludes them).",
+        rule="script x original choices x k in 0..14 x receiver state x receiver choices x continuation choices; non-trivial = snapshot taken after at least one jump "
+             "and restored into a non-fresh receiver; distinct = distinct serialised cases.",
+        assumptions=["variables are put into the host storer before the runner is created (the start node's entry is the creation of the runner)"],
+        subs=[rapid("snapshots", "TestC07Snapshots", 300, 3000)],
+    ),
     "C11": dict(
         technique="model-based PBT over jump histories: reference visit counter vs rendered visited()/visited_count() and Snapshot().VisitedNodes at every step; bounded all-paths enumeration",
         level_text="Jump-heavy generated scripts (2-5 nodes, self-loops and cycles, jumps by name and by expression out of nested option/if bodies, failing jumps "
